@@ -15,6 +15,7 @@ pub mod c04;
 pub mod c05;
 pub mod c09;
 pub mod c10;
+pub mod c11;
 pub mod c12;
 pub mod c13;
 pub mod c14;
@@ -30,6 +31,7 @@ pub fn create(a: &Args) -> Option<Box<dyn Monitor>> {
         "C05" => Some(Box::new(c05::C05::new(a))),
         "C09" => Some(Box::new(c09::C09::new(a))),
         "C10" => Some(Box::new(c10::C10::new(a))),
+        "C11" => Some(Box::new(c11::C11::new(a))),
         "C12" => Some(Box::new(c12::C12::new(a))),
         "C13" => Some(Box::new(c13::C13::new(a))),
         "C14" => Some(Box::new(c14::C14::new(a))),
